@@ -14,7 +14,7 @@ import importlib
 
 from run import Broken, Violation
 
-GEN = ["Aes", "PyAes"]
+GEN = ["Aes", "PyAes", "AesState"]
 RULE = ("structured stream: key length in {16,24,32} x message of 0..8 blocks x random / all-zero / all-0xFF / "
         "single-bit / FIPS and SP 800-38A vectors, through ECB and CBC both directions, every round function on "
         "random states, key schedule, block functions, CryptAES encrypt+decrypt for every message length 0..64 "
@@ -36,6 +36,12 @@ TRUSTED = [
 ]
 
 MOD = "sharepoint2text.parsing.extractors.pdf._pypdf_aes_fallback"
+RULE += ("; concurrent use (props/c20_threads.py): forced two-thread schedules — thread A paused at every call event / "
+         "a strided sample of all line events / one event of its operation while thread B completes (or overlaps with) "
+         "an ECB / CBC / CryptAES / block operation under the same or another key, round-key cache empty or primed; "
+         "every result of both threads and of a repetition afterwards against the model and the single-threaded run")
+ASSUMPTIONS.append("threads are preempted at source-line boundaries at the finest (sys.settrace); two threads; the pause "
+                   "points are deferred while a lock of the module is held")
 
 
 def _A():
@@ -562,6 +568,8 @@ def correspondence(ctx):
     for i in (0, len(reqs) // 3, len(reqs) - 1):
         ctx.sample({"request": _short(reqs[i]), "impl": _short(impls[i][1]), "model": _short(outs[i])})
     ctx.coverage["mismatches"] = mism
+    from props import c20_threads
+    c20_threads.correspondence(ctx, broken)
     return {"broken": broken, "violations": violations}
 
 
@@ -824,6 +832,9 @@ def search(ctx, broken):
     vs = _oracle(ctx, _seeds_from(broken), ctx.n(1500, 20000))
     if not vs:
         vs = _cache_history_search(ctx, broken)
+    if not vs:
+        from props import c20_threads
+        vs = c20_threads.search(ctx, broken)
     return vs
 
 
@@ -862,6 +873,9 @@ def _cache_history_search(ctx, broken, n_random=None):
 
 def replay(ctx, payload):
     rep = payload.get("replay", {})
+    if rep.get("kind") == "sched":
+        from props import c20_threads
+        return c20_threads.replay(ctx, payload)
     if rep.get("kind") == "history":
         b = Broken("correspondence", "c20.cache", "", case={"op": "c20.cache", "keys": [list(bytes.fromhex(k)) for k in rep["keys"]]})
         vs = _cache_history_search(ctx, [b], n_random=0)
